@@ -5,6 +5,7 @@ package main
 import (
 	"fmt"
 	"go/ast"
+	"go/token"
 	"go/types"
 	"sort"
 	"strings"
@@ -199,6 +200,62 @@ func c06Validator(w *World, r *Report) {
 		r.Unk("C06/PREDICATE", "validator/table", w.Pos(fn.Pos()), "no literal table of accepted --dry-run spellings found")
 		return
 	}
+	// the table is the only way to be accepted: every success return lies behind "the flag value equals an
+	// element of the table" (a comparison in a loop over the table, or slices.Contains on it)
+	g := FullGraph(fn)
+	var match []Edge
+	param := ssa.Value(fn.Params[0])
+	for _, b := range fn.Blocks {
+		for _, in := range b.Instrs {
+			switch x := in.(type) {
+			case *ssa.BinOp:
+				if x.Op != token.EQL && x.Op != token.NEQ {
+					continue
+				}
+				other := x.Y
+				if x.Y == param {
+					other = x.X
+				} else if x.X != param {
+					continue
+				}
+				isTable := false
+				if ld, ok := other.(*ssa.UnOp); ok && ld.Op == token.MUL {
+					if ia, ok := ld.X.(*ssa.IndexAddr); ok {
+						_, isTable = constStringSlice(w, ia.X)
+					}
+				}
+				_, isConst := constString(other)
+				if !isTable && !isConst {
+					continue
+				}
+				for _, e := range condEdges(x) {
+					if e.truth == (x.Op == token.EQL) {
+						match = append(match, e.Edge)
+					}
+				}
+			case *ssa.Call:
+				if f, _ := calleeOf(x.Common()); f != nil && fnPkgPath(f) == "slices" && genericName(f) == "Contains" && len(x.Call.Args) == 2 && x.Call.Args[1] == param {
+					if _, ok := constStringSlice(w, x.Call.Args[0]); ok {
+						for _, e := range condEdges(x) {
+							if e.truth {
+								match = append(match, e.Edge)
+							}
+						}
+					}
+				}
+			}
+		}
+	}
+	onlyTable := len(match) > 0
+	for _, rp := range g.classifyReturns() {
+		if rp.Class != RetSuccess {
+			continue
+		}
+		if ex, _ := g.PathExists(entryPos(fn), retPos(rp), Avoid{}.withEdges(match...)); ex {
+			onlyTable = false
+		}
+	}
+	r.Check(onlyTable, "C06/PREDICATE", "validator/only-the-table", w.Pos(fn.Pos()), "a value is accepted only when it equals an element of the literal table", "the validator can accept a value that is not in its literal table (another acceptance path): such a spelling is not recognised by isDryRun() and a real run happens")
 	real := map[string]bool{"none": true, "false": true, "": true}
 	dry := map[string]bool{"client": true, "server": true, "true": true}
 	for _, l := range lits {
